@@ -7,7 +7,7 @@ NBATCH = {'quick': 16, 'thorough': 64}
 BUDGET_S = {'quick': 80, 'thorough': 180}
 PER_BATCH = {'quick': 360, 'thorough': 9000}
 FLOORS = {
-    'quick': {'distinct_nontrivial': 2500, 'python-texts-judged': 4000, 'token-streams-judged': 4000, 'feature:multi-level-dedent': 800,
+    'quick': {'distinct_nontrivial': 2500, 'python-texts-judged': 2500, 'token-streams-judged': 2500, 'feature:multi-level-dedent': 400,
               'feature:bracketed-newline': 1500, 'feature:tabs': 1200, 'feature:blank-or-comment-line': 2500, 'feature:DedentError': 600,
               'feature:>=3-levels': 1500, 'stream-sequences-judged': 1500, 'feature:after-failed-stream': 300, 'feature:after-abandoned-stream': 300,
               'class:no-final-newline-tail': 300, 'class:indented-first-line': 300, 'contract:balanced-at-end': 5000},
@@ -309,12 +309,17 @@ def model(stream, tab_len):
     return out, None
 
 
+KEEP = []
+
+
 def run_stream(ind, stream, take=None):
     from lark import Token
     out = []
     try:
-        for i, t in enumerate(ind.process(iter([Token(a, b) for a, b in stream]))):
+        g = ind.process(iter([Token(a, b) for a, b in stream]))
+        for i, t in enumerate(g):
             if take is not None and i >= take:
+                KEEP.append(g)          # abandoned and still referenced
                 return out, 'abandoned'
             out.append((t.type, str(t)))
     except Exception as e:
@@ -353,6 +358,7 @@ def judge_sequence(ctx, rng):
     """several streams through one Indenter object"""
     tab_len = rng.choice([2, 8])
     ind = make_indenter(tab_len)
+    del KEEP[:]
     prev = []
     for k in range(rng.randint(2, 5)):
         stream = gen_stream(rng)
